@@ -78,22 +78,22 @@ CHECKS = {
    note="Log-level half (a) of the design; the protocol-level half (stale requests against server and client merge paths) rides on the network world when present. Sampling only.",
    tech="deterministic simulation: seeded request/fault histories, refusal oracle against a sequential model"),
  "C15": dict(cat="fault_enumeration", design="DESIGN.md section 6 C15",
-   text="Real histories and syncs produce the artefacts a hostile or damaged input would replace (event-log files of every log type, vault files, event payloads of every event type, request/response bodies of every sync message kind, a backup archive); each is mutated by the fault kinds a disk or peer produces (truncation at every offset when small, single-bit flips, 32-bit length-field edits, byte substitution over 0..=255 at tag positions, splices, short garbage) and fed to the normal entry points (event log open + load_tree + forward/reverse iteration, decode::<T>, header readers, wire decode, archive manifest reader, server handlers with a valid signature over the mutated body, hostile bearer tokens). Oracle: error or value; no panic (also in helper tasks, via a panic hook), no hang (20 s), peak allocation bounded in the input size (counting global allocator), the server answers the next valid request.",
+   text="Real histories and syncs produce the artefacts a hostile or damaged input would replace (event-log files of every log type, vault files, event payloads of every event type, request/response bodies of every sync message kind, a backup archive, a pairing URL); each is mutated by the fault kinds a disk or peer produces (truncation at every offset when small, single-bit flips, 32-bit length-field edits, byte substitution over 0..=255 at tag positions, splices, short garbage) and fed to the normal entry points (event log open + load_tree + forward/reverse iteration, decode::<T>, header readers, wire decode, archive manifest reader, server handlers with a valid signature over the mutated body, hostile bearer tokens). Oracle: error or value; no panic (also in helper tasks, via a panic hook), no hang (20 s), peak allocation bounded in the input size (counting global allocator), the server answers the next valid request.",
    note="Enumeration over mutation positions for small artefacts, seeded sampling for large ones; sampling over the histories that produce the artefacts. The allocation bound allows the codec's own 16 MiB max_buffer cap. One panic inside the third-party zip parser (overflow-check builds only) is a known finding.",
    tech="deterministic simulation: fault injection on stored bytes and wire buffers (bit flips, truncation, length-field edits, splices) with panic / hang / allocation monitors"),
 
  "C17": dict(cat="exploration", design="DESIGN.md section 6 C17",
-   text="Two devices of one account and the real server; one device edits file secrets whose content is an external encrypted blob (create with several sizes, replace content, replace by embedded content, meta-only update, move between folders, archive/unarchive, delete secret, delete folder), both devices sync through the real sync path, blob transfer is driven against the real upload/download/move/delete/compare routes of the server router, and damaged or hostile uploads are injected as transport faults (altered byte, truncated, empty, connection reset mid-body, valid bytes under another name, appended bytes, other content for an existing name). After every step: replay(file event log) == blobs named by the live file secrets; blobs on disk == replay(file log) on the editing device and, once transfers settled and logs converged, on the second device and the server; every blob name == SHA-256(bytes); decrypt(blob) == original content; a refused upload leaves the server's file tree byte-for-byte unchanged.",
+   text="Two devices of one account and the real server; one device edits file secrets whose content is an external encrypted blob (create with several sizes, replace content, replace by embedded content, meta-only update, move between folders, archive/unarchive, delete secret, delete folder), both devices sync through the real sync path, blob transfer is driven against the real upload/download/move/delete/compare routes of the server router, and damaged or hostile uploads are injected as transport faults (altered byte, truncated, empty, connection reset mid-body, valid bytes under another name, appended bytes, other content for an existing name); correct uploads arrive as two-part body streams with an observer of the server's own blob listing in between (a partially received file must never be exposed under its content-addressed name). After every step: replay(file event log) == blobs named by the live file secrets; blobs on disk == replay(file log) on the editing device and, once transfers settled and logs converged, on the second device and the server; every blob name == SHA-256(bytes); decrypt(blob) == original content; a refused upload leaves the server's file tree byte-for-byte unchanged.",
    note="The retry / progress / cancellation machinery of sos_net's transfer queue is replaced by a sequential settle loop issuing the same requests (stub). Generated plans keep a single editing device, as the property quantifies; two-editor plans can be written by hand (observations/). age's scrypt calibration reads the simulated clock (slow simulated machine => small work factor). Sampling only.",
    tech="deterministic simulation: multi-device world with simulated transport, transfer faults (damaged / hostile uploads) and content-addressing oracles"),
  "C18": dict(cat="exploration", design="DESIGN.md section 6 C18",
-   text="Single-device histories (both backends = archive v2 / v3, both ciphers, several folders with flags and descriptions, all secret kinds, 0-3 external attachments, restarts) end with export through the normal API, import into empty storage of the same backend, sign-in with the same password and comparison with the model (every decrypted secret, folder attributes, attachment blobs byte-for-byte, replay == served == mirror on the restored account). The archive is then damaged as a disk or hostile sender would (content byte of a checksummed entry or attachment, manifest checksum, entry removed, extra entries named ../x, files/<id>/../../../../x, ..\\..\\x, C:\\x, an absolute path, duplicate names) and imported into fresh storage inside a sentinel directory: checksum mismatches must be rejected without leaving an account, nothing may be written outside the target, an accepted archive must restore the same content, the import must not panic.",
+   text="Single-device histories (both backends = archive v2 / v3, both ciphers, several folders with flags and descriptions, all secret kinds, 0-3 external attachments, restarts) end with export through the normal API, import into empty storage of the same backend, sign-in with the same password and comparison with the model (every decrypted secret, folder attributes, attachment blobs byte-for-byte, replay == served == mirror on the restored account). The archive is then damaged as a disk or hostile sender would (content byte of a checksummed entry or attachment, manifest checksum, entry removed, extra entries named ../x, files/<id>/../../../../x, ..\\..\\x, C:\\x, an absolute path, duplicate names, a manifest checksum cut to a proper prefix, all checksums emptied with every checksummed entry altered) and imported into fresh storage inside a sentinel directory: checksum mismatches must be rejected without leaving an account, nothing may be written outside the target, an accepted archive must restore the same content, the import must not panic.",
    note="Archive damage is stored-byte / hostile-peer fault injection at the end of simulated histories; v1 archives and cross-version upgrade imports are not driven. Sampling over histories, enumeration over the damage kinds per run.",
    tech="deterministic simulation: seeded account histories, export/import round trip against the sequential model, fault injection on archive entries with a directory-tree oracle"),
 
  "C19": dict(cat="exploration", design="DESIGN.md section 6 C19",
    text="The multi-device world (2-3 devices + real server) starts entirely on the file-system backend; at seeded positions of seeded histories (edits of all kinds, folders with flags / descriptions, deleted folders, trusted devices, external attachments, offline spans, syncs) a device signs out, upgrade_accounts runs as a dry run (the data directory must stay byte-for-byte identical) and for real (keep_stale_files drawn), the device reopens on the database backend and the history continues with the ordinary sync traffic; in a third of the runs the stopped server's storage is upgraded (server layout) and restarted on sqlite. At each upgrade: SyncStatus per log (root, length) before == after; the upgraded account serves what a fresh file-system account over the same storage served right before; replay(log) == served == persisted vault unless the file-system account already disagreed; trusted devices and external blobs unchanged; a device that equalled its server before the upgrade syncs successfully afterwards and still equals it.",
-   note="One account per data directory (several accounts per directory are not generated); preferences and the server-origin list are not populated by the harness, so their preservation is not observed; 'same history on either backend gives the same account' is decided by C01/C06 (both backends against one model). Sampling only.",
+   note="Global and account preferences and the server-origin list are written through the file-system backend before each upgrade and compared through sqlite afterwards; in about 3/4 of the upgrades a second account (own preferences, server list sharing a URL) lives in the same data directory and is compared too; several accounts in the server layout are not generated; 'same history on either backend gives the same account' is decided by C01/C06 (both backends against one model). Sampling only.",
    tech="deterministic simulation: multi-device world with upgrade steps at seeded positions (synced / unsynced state, client and server layouts), before/after oracles and continued sync traffic"),
 
 }
